@@ -135,6 +135,10 @@ def confirm_neutral(name: str, src: str) -> int:
         rc2 = 0
         if os.path.isfile(equiv):
             rc2, out2 = sh([PY, "-m", "pytest", "-q", "-p", "no:cacheprovider", "out/equiv_test.py"], cwd=wt, env=env)
+        if os.path.isfile(os.path.join(src, "demo_test.py")) and meta.get("derived_from"):
+            # the repaired twin of a breaking change: the change's own demonstration passes again
+            rc3, _ = sh([PY, "-m", "pytest", "-q", "-p", "no:cacheprovider", "out/demo_test.py"], cwd=wt, env=env)
+            rc2 = rc2 or rc3
         suite_line = out1.strip().splitlines()[-1] if out1.strip() else ""
         print(f"{name}: equiv tests on clean tree rc={rc0}; suite with refactoring rc={rc1} ({suite_line}); equiv tests with refactoring rc={rc2}")
         if rc0 or rc1 or rc2:
